@@ -1,5 +1,6 @@
 from __future__ import annotations
 
+import copy
 import math
 import operator
 import warnings
@@ -711,6 +712,20 @@ class Array(DaskMethodsMixin):
 
         # Use SetItem expression for other index types
         from dask_array.slicing import SetItem
+
+        # The assignment is lazy but it is the assignment with the index as it
+        # is now: snapshot mutable index objects (arrays, lists, dask arrays
+        # that may later be assigned into in place).
+        def snapshot(k):
+            if isinstance(k, np.ndarray):
+                return k.copy()
+            if isinstance(k, list):
+                return copy.deepcopy(k)
+            if isinstance(k, Array):
+                return new_collection(k.expr)
+            return k
+
+        key = tuple(snapshot(k) for k in key) if isinstance(key, tuple) else snapshot(key)
 
         value_expr = value.expr if isinstance(value, Array) else value
         y = new_collection(SetItem(self.expr, key, value_expr))
